@@ -58,6 +58,10 @@ theorem broadcast_lists_current_members (ser : String → List Nat) (lf : String
     rw [this, hf, ← hv]
     cases aget ch.groups f <;> rfl
 
+/-- `FrontGroup.Remove` — first-position, last-position and middle slice cases, and
+"not found" — is "erase the first occurrence" on every list and id -/
+theorem remove_is_erase_first (l : List Nat) (x : Nat) : removeGo l x = l.erase x := removeGo_eq_erase l x
+
 /-- the id list of the only tuple for front `f` (empty if there is none) -/
 def listed (ops : List Op) (c f : String) : List Nat := (members ops c f).getD []
 
@@ -68,6 +72,13 @@ theorem count_eq (ops : List Op) (c f : String) (x : Nat) :
     (listed ops c f).count x = (tally ops c f x).adds - (tally ops c f x).left ∧
     (tally ops c f x).left ≤ (tally ops c f x).adds :=
   tally_fold c f x ops none ⟨0, 0⟩ (by simp)
+
+/-- ids that were never added, or removed as often as added, are not addressed -/
+theorem removed_or_never_added_not_listed (ops : List Op) (c f : String) (x : Nat)
+    (h : (tally ops c f x).adds = (tally ops c f x).left) : x ∉ listed ops c f := by
+  have := (count_eq ops c f x).1
+  rw [h, Nat.sub_self] at this
+  exact List.count_eq_zero.mp this
 
 /-- **Join order.** The listed ids are a subsequence of the ids joined to (c, f)
 since the channel was last (re)created, in join order. -/
@@ -120,6 +131,14 @@ theorem isolation (ser : String → List Nat) (s : St) (op : Op) (c f : String) 
     view (step ser s op).1.svc c f = view s.svc c f := by
   rw [view_step]
   cases op <;> simp_all [stepView, targets]
+
+/-- **Isolation, over histories.** Inserting anywhere into any history an operation
+that does not address (c, f) leaves what every later broadcast lists for (c, f) unchanged. -/
+theorem isolation_history (ops₁ ops₂ : List Op) (op : Op) (c f : String) (h : ¬ targets c f op) :
+    members (ops₁ ++ op :: ops₂) c f = members (ops₁ ++ ops₂) c f := by
+  have hstep : ∀ v, stepView c f v op = v := by
+    intro v; cases op <;> simp_all [stepView, targets]
+  simp [members, List.foldl_append, hstep]
 
 /-- **Isolation, leaves of absent ids.** Leaving with an id that is not currently
 listed for that channel and front (never added, already removed, no such group, no
@@ -303,7 +322,8 @@ example : bcastObs (fun s => s.toList.map Char.toNat) "f1" demo "a" "r" "m"
 example : chanExists demo "a" = true ∧ chanExists demo "zz" = false ∧
     members demo "a" "f1" = some [3, 2] ∧ members demo "a" "f2" = some [] ∧ members demo "a" "f3" = none := by decide
 
-example : tally demo "a" "f1" 2 = ⟨2, 1⟩ ∧ joinSeq demo "a" "f1" = [2, 3, 2] := by decide
+example : tally demo "a" "f1" 2 = ⟨2, 1⟩ ∧ joinSeq demo "a" "f1" = [2, 3, 2] ∧
+    (tally demo "a" "f2" 7).adds = (tally demo "a" "f2" 7).left ∧ (tally demo "a" "f1" 5).adds = (tally demo "a" "f1" 5).left := by decide
 
 /-- removals at the first, middle and last position and of the only element -/
 example : removeGo [1, 2, 3, 4] 1 = [2, 3, 4] ∧ removeGo [1, 2, 3, 4] 3 = [1, 2, 4] ∧
